@@ -342,7 +342,15 @@ def apply_op(pr, env, o):
     elif t == "S":
         target(o[1]).importance.all = float(Fraction(o[2]))
     elif t == "Wr":
-        mp.write_problem(pr, "c09_intermediate.i")
+        text = mp.write_problem(pr, "c09_intermediate.i")
+        if env.get("judge_intermediate"):
+            mode = real_mode(pr)
+            try:
+                api = api_view(pr, mode)
+            except Exception:
+                api = None
+            env.setdefault("intermediate", []).append(
+                {"out": text, "mode": mode, "api": api, "flags": {k: bool(pr.print_in_data_block[k]) for k in CLASSES}})
     elif t == "O":
         pr.cells = [pr.cells[n] for n in o[1]]
     elif t == "I":
@@ -401,7 +409,7 @@ def run_real(case, probe_first=True):
         pr = mp.read_problem(case["text"])
     except Exception as e:
         return {"read_error": exc_class(e)}
-    env = {"scratch": None}
+    env = {"scratch": None, "judge_intermediate": probe_first}
     log = []
     for o in case["ops"]:
         try:
@@ -418,7 +426,8 @@ def run_real(case, probe_first=True):
     mode = real_mode(pr)
     res = {"oplog": log, "mode": mode,
            "flags": {k: bool(pr.print_in_data_block[k]) for k in CLASSES},
-           "intermediate_write_errors": env.get("intermediate_write_errors", [])}
+           "intermediate_write_errors": env.get("intermediate_write_errors", []),
+           "intermediate": env.get("intermediate", [])}
 
     def take_api(key):
         try:
@@ -625,7 +634,10 @@ def gen_c09(rng):
             tr[nums[0]] = rng.choice(["(1 0 0)", "(0 0 2.5)"])
     negu = {c for c in univ if rng.random() < 0.15}       # "not truncated": written with a minus sign
     imps = {c: {p: rng.choice(IMP_CHOICES) for p in particles} for c in nums}
-    if rng.random() < 0.4:
+    force_joint = len(particles) > 1 and rng.random() < 0.3        # one data-block input imp:n,p,... for all
+    if force_joint:
+        place["imp"] = "data"
+    if force_joint or rng.random() < 0.4:
         for c in nums:
             v = rng.choice(IMP_CHOICES)
             imps[c] = {p: v for p in particles}
@@ -672,7 +684,7 @@ def gen_c09(rng):
     mods = []
     if place["imp"] == "data":
         vecs = {p: [imps[c][p] for c in nums] for p in particles}
-        if len(particles) > 1 and len(set(map(tuple, vecs.values()))) == 1 and rng.random() < 0.5:
+        if len(particles) > 1 and len(set(map(tuple, vecs.values()))) == 1 and (force_joint or rng.random() < 0.5):
             mods.append(" ".join([kw("imp:" + ",".join(particles))] + compress_vec(rng, vecs[particles[0]])))
         else:
             for p in particles:
@@ -851,6 +863,11 @@ def targeted_programs(rng, meta):
         out.append(("write-reverse", [["Wr"], ["O", list(reversed(cells))]]))
         out.append(("write-move-first-to-end", [["Wr"], ["O", cells[1:] + cells[:1]], ["Wr"]]))
     out.append(("append-write-edit", app + [["A"], ["Wr"]] + edit))
+    # a joint IMP input (imp:n,p ...): an edit that keeps the particles equal, a write, an edit that splits them
+    if len(parts) > 1:
+        out.append(("equal-edit-write-split",
+                    [["I", cells[-1], q, "2"] for q in parts] + [["Wr"]] + [["I", cells[len(cells) // 2], parts[-1], "0.5"]]))
+        out.append(("all-write-split", [["S", cells[0], "4"], ["Wr"], ["I", cells[-1], parts[0], "8"], ["Wr"]]))
     # a new cell has a neutron tree only: importance.all has to give it one for every MODE particle
     out.append(("append-then-set-all", [["N", new], ["A"], ["S", new, "2"]]))
     return out
@@ -1100,9 +1117,23 @@ def comment_oracle(case, real):
     return None
 
 
+def oracle_all(real, reread=True):
+    """the oracle on the final file and on every file an intermediate write_to_file made"""
+    r = oracle(real, reread=reread)
+    if r is None:
+        for j, mid in enumerate(real.get("intermediate", [])):
+            if mid.get("api") is None:
+                continue
+            r = oracle(mid, reread=False)
+            if r is not None:
+                r = {"kind": r["kind"], "detail": ["intermediate write %d" % j] + list(r["detail"] if isinstance(r["detail"], list) else [r["detail"]])}
+                break
+    return r
+
+
 def check_case(case, reread=True):
     real = run_real(case, probe_first=case.get("probe_first", True))
-    r = oracle(real, reread=reread)
+    r = oracle_all(real, reread=reread)
     if r is None and not case.get("ops"):
         r = read_oracle(case["text"])
     if r is None:
@@ -1234,7 +1265,7 @@ def replay(ctx, path):
 
 def run(ctx):
     quick = ctx.tier == "quick"
-    n_pairs = 30 if quick else 160
+    n_pairs = 26 if quick else 140
     # the order of write_to_file's steps is taken from the source on every run (Gen/Writer.v); Properties/C09.v
     # compares it with the order Model/Place.v assumes (C09_gen_writer_steps)
     try:
@@ -1352,7 +1383,7 @@ def run(ctx):
             # ---- oracle
             rr = (not quick) or (c.get("bits") or 0) % 8 == 0 or c.get("src") == "corpus" or c.get("src", "").startswith("targeted")
             dist["reread_checked"] += bool(rr and "out" in real)
-            f = oracle(real, reread=rr)
+            f = oracle_all(real, reread=rr)
             if f is None:
                 f = comment_oracle(c, real)
             if f is not None:
